@@ -759,6 +759,12 @@ def scale_specs():
     # team t_k serves task (k mod 11) + 1: t1 -> "2", ..., t10 -> "11", t11 -> "1"; everybody is skilled for everything
     teams = [{"name": "t%d" % (i + 1), "targets": [(i + 1) % 11], "workers": [{"name": "p%d" % (i + 1), "skills": dict(allsk), "cost": 1.0}]} for i in range(11)]
     out.append({"tasks": tasks, "links": [[2, 1, "FS"], [1, 0, "FS"]], "teams": teams, "label": "scale:ambiguous-ids-teams"})
+    # (11) a long run: seven tasks (40 working steps) done by one worker, five components (one without tasks)
+    tasks = [{"name": "T%d" % i, "work": float(w)} for i, w in enumerate((6, 5, 7, 4, 6, 5, 7))]
+    comps = [{"name": "C0", "tasks": [0, 1]}, {"name": "C1", "tasks": [2]}, {"name": "C2", "tasks": [3, 4]}, {"name": "C3", "tasks": [5, 6]}, {"name": "C4", "tasks": []}]
+    sp = with_teams({"tasks": tasks, "links": [[0, 1, "FS"], [1, 2, "FS"], [2, 3, "SS"], [3, 4, "FS"], [4, 5, "FS"], [5, 6, "FS"]], "components": comps}, "POOL1")
+    sp["label"] = "scale:long-run"
+    out.append(sp)
     # (10) nine independent tasks of a one-worker team queue up in front of another team's chain
     tasks = [{"name": "A%d" % i, "work": 2.0} for i in range(9)] + [{"name": "B1", "work": 2.0}, {"name": "B2", "work": 2.0}]
     teams = [{"name": "TA", "targets": list(range(9)), "workers": [{"name": "wa", "skills": {"A%d" % i: 1.0 for i in range(9)}, "cost": 1.0}]},
